@@ -89,16 +89,19 @@ def draw_spec(rng, tier="quick"):
             if scar and i == 1:
                 t = word[-1] + t[1:]
             text = ba.build_module(e, ovs[i], t, ovs[i + 1], rng, backbone=rng.choice([0, 0, 1, 2] + list(range(3, 15))))   # (0: the structure fills the plasmid)
-            if text is not None and text.upper().count((ovs[i] + t).upper()) == 1:
+            if text is not None:
                 break
         else:
             return None
-        st = text.index(ovs[i] + t)
+        st = len(site) + a          # (layout of build_module: site . N^a . o5 . t . o3 ...; searching for o5 + t can hit the site itself)
         plasmids.append(dict(role="module", text=text, inside=(st, k + len(t)), frag=ovs[i] + t))
-    vtext, vfrag = ba.build_vector(e, ovs[chain], ovs[0], rng, placeholder=rng.choice([0, 1, 2] + list(range(3, 10))), backbone=rng.choice([0, 1] + list(range(2, 15))))
+    ph_ = rng.choice([0, 1, 2] + list(range(3, 10)))
+    vtext, vfrag = ba.build_vector(e, ovs[chain], ovs[0], rng, placeholder=ph_, backbone=rng.choice([0, 1] + list(range(2, 15))))
     if vtext is None:
         return None
-    vst = (vtext + vtext).index(vfrag) % len(vtext)
+    # (layout of build_vector: N . vend . N^a . rc(site) . placeholder . site . N^a . vstart . N . backbone; the kept stretch starts at vstart)
+    vst = 1 + k + a + len(site) + ph_ + len(site) + a
+    assert (vtext + vtext)[vst:vst + len(vfrag)] == vfrag
     plasmids.append(dict(role="vector", text=vtext, inside=(vst, len(vfrag)), frag=vfrag))
     unused = None
     if rng.random() < 0.3:
